@@ -270,6 +270,11 @@ class ModelElement:
                     setattr(self, key, val)
             self._model._loader.idcache_index(self._element)
         except BaseException:
+            # nested objects created from the keyword arguments are
+            # already indexed; forget them before dropping the element
+            for child in self._element:
+                with contextlib.suppress(Exception):
+                    self._model._loader.idcache_remove(child)
             parent.remove(self._element)
             raise
 
